@@ -7,7 +7,7 @@ reachable (`Simulation.CReachable`, by the environment steps `Simulation.EnvStep
 multiplicity, ticks, proposals, campaigns, `Ready`/persist/`Advance` rounds, crashes with restart) from an initial
 cluster (`Simulation.InitCluster voters c0`) over a strictly ascending, non-empty voter list without the id 0 — the
 hypotheses of the simulation theorem `Simulation.cluster_simulates`, whose restrictions (static membership, no
-learners, no PreVote / CheckQuorum / transfer / ReadIndex, no snapshots, sync storage writes) therefore apply.
+learners, no PreVote / transfer / ReadIndex; CheckQuorum free, no snapshots, sync storage writes) therefore apply.
 
 The statements mention model states only:
 * a node's log is `rn.raft.log.abs.ents` (nothing is compacted: the entry with index `i` is `ents[i - 1]?`),
@@ -203,7 +203,7 @@ theorem restart_resumes_from_storage {voters : List Id} {c0 c : Cluster} (hsorte
     (h0 : 0 ∉ voters) (hne : voters ≠ []) (hc : InitCluster voters c0) (h : CReachable c0 c)
     {n : Nat} {rn rn' : RawNode} {cfg : Config} {draws : List Nat}
     (hn : c.nodes n = some rn) (hnv : ∀ m ∈ rn.raft.msgs, m.typ ≠ .vote)
-    (hid : cfg.id = n) (hpv : cfg.preVote = false) (hcq : cfg.checkQuorum = false)
+    (hid : cfg.id = n) (hpv : cfg.preVote = false)
     (has : cfg.asyncStorageWrites = false) (happ : cfg.applied = 0)
     (hnew : RawNode.new cfg rn.raft.log.storage draws = .ok rn') :
     rn'.raft.term = (rn.raft.log.storage.hardState.getD {}).term ∧
@@ -212,7 +212,7 @@ theorem restart_resumes_from_storage {voters : List Id} {c0 c : Cluster} (hsorte
     rn'.raft.log.storage.hardState.getD {} = rn.raft.log.storage.hardState.getD {} := by
   have S : Setting voters c0 c := ⟨hsorted, h0, hne, hc, h⟩
   obtain ⟨s, _, hR⟩ := S.related (fun _ _ => 0)
-  obtain ⟨h1, h2⟩ := restart_hardState hsorted h0 hne hR hn hnv hid hpv hcq has happ hnew
+  obtain ⟨h1, h2⟩ := restart_hardState hsorted h0 hne hR hn hnv hid hpv has happ hnew
   exact ⟨congrArg HardState.term h1, congrArg HardState.vote h1, congrArg HardState.commit h1, h2⟩
 
 /-! ## further transfers -/
